@@ -111,6 +111,36 @@ def w_data(case):
     return [[k, w_value(v)] for k, v in sorted(case['data'].items())]
 
 
+def w_reqs(case):
+    return [[e, Atom(G.kind_of_file(case, e)), [[k, w_value(v)] for k, v in sorted(d.items())]]
+            for e, d in G.requests(case)]
+
+
+def seq_lines(case):
+    files = w_files(case)
+    return [proto.line(Atom('C11'), Atom('chain'), Atom(m), FUEL, files, w_reqs(case)) for m in ('inline', 'runtime')]
+
+
+def seq_outcomes(ans):
+    """decode a seq answer into a list of outcomes (None: unmodelled)"""
+    if ans == 'unmodelled':
+        return None
+    toks = ans.split()
+    # top-level list of outcomes: split at depth 1
+    assert toks[0] == '(' and toks[-1] == ')'
+    outs, depth, cur = [], 0, []
+    for t in toks[1:-1]:
+        cur.append(t)
+        if t == '(':
+            depth += 1
+        elif t == ')':
+            depth -= 1
+        if depth == 0:
+            outs.append(model_outcome(' '.join(cur)))
+            cur = []
+    return outs
+
+
 def model_lines(case):
     files, data = w_files(case), w_data(case)
     kind = Atom(G.entry_kind(case))
@@ -157,6 +187,25 @@ def sources(case):
     return [[i, p, G.source(f)] for i, d in enumerate(case['dirs']) for p, f in d]
 
 
+def oracle_then(case, real, gate=True):
+    """the further requests answered by the same loaders: position by position, inline mode
+    answers like run-time mode and like the specification"""
+    if gate and not (G.in_hypothesis(case) and G.modelled(case)):
+        return None
+    for i, (a, b) in enumerate(zip(real.get('inline_then', []), real.get('runtime_then', []))):
+        if a[0] == 'skip' or b[0] == 'skip':
+            continue
+        entry, data = G.requests(case)[i + 1]
+        if a != b:
+            return {'case': case, 'what': 'request %d (%s) through the same loader: auto_reload off answers like auto_reload on' % (i + 2, entry),
+                    'expected': {'runtime': b}, 'observed': {'inline': a}, 'sources': sources(case)}
+        sp = G.spec_render(case, entry, data)
+        if a != sp:
+            return {'case': case, 'what': 'request %d (%s) through the same loader: both modes produce the content of the include targets in place' % (i + 2, entry),
+                    'expected': {'spec': sp}, 'observed': {'both': a}, 'sources': sources(case)}
+    return None
+
+
 def oracle(case, real, spec, gate=True):
     """failure dict or None.  real = {'inline': outcome, 'runtime': outcome}"""
     if gate and not (G.in_hypothesis(case) and G.modelled(case)):
@@ -185,7 +234,7 @@ def evaluate(case, tag, gate=True):
         # model is run on it (they would do the same unbounded amount of work)
         return real, None, None
     spec = G.spec_render(case)
-    return real, spec, oracle(case, real, spec, gate)
+    return real, spec, oracle(case, real, spec, gate) or oracle_then(case, real, gate)
 
 
 def spec_stats(case):
@@ -223,8 +272,29 @@ def shard(arg):
     lines = []
     for case, _, _, _ in evald:
         lines.extend(model_lines(case))
+    seq_at = {}
+    for i, (case, real, _, _) in enumerate(evald):
+        if case.get('then') and not any(o[0] == 'skip' for o in real['inline_then'] + real['runtime_then']):
+            seq_at[i] = len(lines)
+            lines.extend(seq_lines(case))
     answers = proto.run_lines(lines)
     for i, (case, real, spec, fail) in enumerate(evald):
+        if i in seq_at:
+            res.count('requests-through-one-loader:%d' % len(G.requests(case)))
+            for j, m in enumerate(('inline', 'runtime')):
+                mo = seq_outcomes(answers[seq_at[i] + j])
+                if mo is None:
+                    continue
+                ro = [real[m]] + real[m + '_then']
+                if m == 'inline':
+                    # after a failed render the real loader may hold prepared templates the model's
+                    # does not: compare up to and including the first failure
+                    k = next((x + 1 for x, o in enumerate(ro) if o[0] != 'ok'), len(ro))
+                    ro, mo = ro[:k], mo[:k]
+                res.streams['sequence-' + m] = res.streams.get('sequence-' + m, 0) + 1
+                if mo != ro:
+                    res.disagreements.append({'stream': 'sequence-' + m, 'case': case, 'model': repr(mo)[:600],
+                                              'real': repr(ro)[:600], 'sources': sources(case)})
         inh = G.in_hypothesis(case) and G.modelled(case)
         res.count('hypothesis:' + ('inside' if inh else 'outside'))
         res.count('outcome:' + (real['runtime'][0] if real['runtime'][0] == 'ok' else real['runtime'][1]))
